@@ -118,13 +118,6 @@ class Check:
 
     # ---- finish ----
     def finish(self):
-        # instance minima: a rule matching fewer sites than confirmed by hand is broken, not passing
-        for name, spec in self.expect.items():
-            mn = spec["min"] if isinstance(spec, dict) else spec
-            got = self.counts.get(name, 0)
-            if got < mn:
-                raise AnalysisBroken("instance count for '%s' is %d, below the confirmed minimum %d (%s)" % (
-                    name, got, mn, spec.get("why", "") if isinstance(spec, dict) else ""))
         findings, fixed = load_known()
         mine = [f for f in findings if f["property"] == self.pid]
         refuted = [o for o in self.obligations if o["status"] == REFUTED]
@@ -132,6 +125,15 @@ class Check:
         for o in refuted:
             hit = next((f for f in mine if f["rule"] == o["rule"] and f["key"] == o["key"]), None)
             (known_hits if hit else new).append(o)
+        # instance minima: a rule matching fewer sites than confirmed by hand is broken, not *passing* -- they guard against a
+        # vacuous pass, so they are applied only when nothing is reported (a tree with a violation may well have fewer instances)
+        if not new:
+            for name, spec in self.expect.items():
+                mn = spec["min"] if isinstance(spec, dict) else spec
+                got = self.counts.get(name, 0)
+                if got < mn:
+                    raise AnalysisBroken("instance count for '%s' is %d, below the confirmed minimum %d (%s)" % (
+                        name, got, mn, spec.get("why", "") if isinstance(spec, dict) else ""))
         wall = time.time() - self.t0
         n_ob = len(self.obligations)
         n_proved = sum(1 for o in self.obligations if o["status"] == PROVED)
